@@ -161,7 +161,9 @@ impl<'a> LoweringManager<'a> {
     // For closure functions (first param named "_this"), get the explicit type name.
     // This is needed for call_indirect to work correctly - the function's type must
     // match the type used in call_indirect exactly.
-    let type_name = if function.parameters.first() == Some(&PStr::UNDERSCORE_THIS) {
+    let type_name = if function.parameters.first().is_some_and(|p| {
+      super::mir_tail_recursion_rewrite::is_context_parameter(instance.type_cx.heap, *p)
+    }) {
       Some(instance.type_cx.lower_function_type(&function.type_))
     } else {
       None
